@@ -489,6 +489,16 @@ class Facts:
                         if rr in self._all_class_quals():
                             target = self.method(rr, f.attr)
             elif isinstance(f, ast.Name):
+                multi = self._dispatch_targets(cq, fn, f.id) if cq and f.id not in nested else None
+                if multi:
+                    # a function taken from a class-level dispatch table and called with an explicit self:
+                    # one call site per function the table holds
+                    for t in multi:
+                        cs = CallSite(qual, call, text, t, None)
+                        cs.recv_cls = None  # type: ignore[attr-defined]
+                        cs.explicit_self = True  # type: ignore[attr-defined]
+                        yield cs
+                    continue
                 if f.id in nested:
                     target = None
                     ext = "nested:" + f.id
@@ -517,6 +527,58 @@ class Facts:
             cs = CallSite(qual, call, text, target, ext)
             cs.recv_cls = recv_cls  # type: ignore[attr-defined]
             yield cs
+
+    def class_table_targets(self, cq: str, table: str) -> list[str] | None:
+        """Qualified functions held as values by the class-level dict display ``table`` of class ``cq`` (values
+        are functions of the class body, directly or through ``**dict.fromkeys(keys, fn)``); None if the
+        binding is anything else."""
+        mod, cname = cq.split(".")
+        mi = self.repo.modules[mod]
+        expr = mi.class_bindings.get(cname, {}).get(table)
+        if not isinstance(expr, ast.Dict):
+            return None
+        meths = mi.methods.get(cname, {})
+        out: list[str] = []
+        for k, v in zip(expr.keys, expr.values):
+            if k is None:
+                if isinstance(v, ast.Call) and dotted(v.func) == "dict.fromkeys" and len(v.args) == 2 and not v.keywords:
+                    v = v.args[1]
+                else:
+                    return None
+            if isinstance(v, ast.Name) and v.id in meths:
+                out.append(f"{cq}.{v.id}")
+            elif isinstance(v, ast.Name) and v.id in mi.functions:
+                out.append(f"{mod}.{v.id}")
+            else:
+                return None
+        return sorted(set(out)) or None
+
+    def _dispatch_targets(self, cq: str, fn: ast.FunctionDef, local: str) -> list[str] | None:
+        """``local`` is bound in ``fn`` only by look-ups in one class-level dispatch table of ``cq``."""
+        values = []
+        for st in ast.walk(fn):
+            if isinstance(st, ast.Assign) and any(isinstance(t, ast.Name) and t.id == local for t in st.targets):
+                values.append(st.value)
+            elif isinstance(st, (ast.AugAssign, ast.AnnAssign, ast.For, ast.comprehension, ast.NamedExpr)) and isinstance(st.target, ast.Name) and st.target.id == local:
+                return None
+            elif isinstance(st, (ast.With, ast.ExceptHandler, ast.Import, ast.ImportFrom)) and local in {getattr(x, "id", None) for x in ast.walk(st) if isinstance(x, ast.Name) and isinstance(x.ctx, ast.Store)} and not isinstance(st, ast.Assign):
+                pass
+        if not values or local in {a.arg for a in fn.args.args + fn.args.kwonlyargs}:
+            return None
+        out: set = set()
+        for v in values:
+            tbl = None
+            if isinstance(v, ast.Subscript):
+                tbl = dotted(v.value)
+            elif isinstance(v, ast.Call) and isinstance(v.func, ast.Attribute) and v.func.attr == "get" and 1 <= len(v.args) <= 2 and (len(v.args) == 1 or (isinstance(v.args[1], ast.Constant) and v.args[1].value is None)):
+                tbl = dotted(v.func.value)
+            if not tbl or tbl.count(".") != 1 or tbl.split(".")[0] not in ("self", "cls", cq.split(".")[1]):
+                return None
+            ts = self.class_table_targets(cq, tbl.split(".")[1])
+            if not ts:
+                return None
+            out |= set(ts)
+        return sorted(out)
 
     def callees(self, qual: str) -> set[str]:
         out = {c.target for c in self.calls.get(qual, []) if c.target}
